@@ -506,8 +506,15 @@ func TestVerifX05MirrorReplay(t *testing.T) {
 		// awaitReturn: Handle returns, or it is parked inside the product code while the mirror call is pending
 		awaitReturn := func() bool {
 			parked := 0
+			isSync := false
 			ok := x05Await(func() bool {
 				if atomic.LoadInt64(&returned) == 1 {
+					return true
+				}
+				var mirGid int64
+				scn.get(func() { mirGid = scn.arrGid["mirror"] })
+				if mirGid != 0 && mirGid == atomic.LoadInt64(&pGid) {
+					isSync = true
 					return true
 				}
 				if x05ParkedInProduct(x05BlockOf(x05Dump(), atomic.LoadInt64(&pGid))) {
@@ -518,10 +525,21 @@ func TestVerifX05MirrorReplay(t *testing.T) {
 				}
 				return parked >= 40
 			})
+			if !ok {
+				stuck++
+				fail("stuck", "Proxy.Handle neither returns nor parks")
+				return false
+			}
+			if isSync {
+				fail("sync", "the mirror call is made on the request's own goroutine (not fire-and-forget)")
+				return false
+			}
 			if ok && atomic.LoadInt64(&returned) == 0 {
 				fail("blocked", "Proxy.Handle does not return while the mirror call is pending (main pool has answered)")
 				x05Open(scn.reply["mirror"])
 				x05Open(scn.gate["mirror"])
+				cancel()
+				x05Open(scn.teardown)
 				x05Await(func() bool { return atomic.LoadInt64(&returned) == 1 })
 				return false
 			}
@@ -588,15 +606,7 @@ func TestVerifX05MirrorReplay(t *testing.T) {
 			case "match":
 				go runP()
 				if late {
-					if !await("handle returned (late schedule)", func() bool {
-						var mirGid int64
-						scn.get(func() { mirGid = scn.arrGid["mirror"] })
-						return atomic.LoadInt64(&returned) == 1 || (mirGid != 0 && mirGid == atomic.LoadInt64(&pGid))
-					}) {
-						break
-					}
-					if atomic.LoadInt64(&returned) == 0 {
-						fail("sync", "the mirror call is made on the request's own goroutine (not fire-and-forget)")
+					if !awaitReturn() {
 						break
 					}
 					// compare against the model's state after its "moveon" step
@@ -706,7 +716,7 @@ func TestVerifX05MirrorReplay(t *testing.T) {
 		}
 		// teardown
 		cancel()
-		close(scn.teardown)
+		x05Open(scn.teardown)
 		x05Await(func() bool { return mirrorAlive() == 0 && (atomic.LoadInt64(&pGid) == 0 || atomic.LoadInt64(&returned) == 1) })
 		if bad != "" {
 			mism++
@@ -736,7 +746,7 @@ func TestVerifX05MirrorTV(t *testing.T) {
 		nReq = 1200
 	}
 	release := make(chan struct{})
-	var held int64
+	var held, nResp int64
 	mainSrv := httptest.NewServer(http.HandlerFunc(func(rw http.ResponseWriter, r *http.Request) {
 		id, _ := strconv.Atoi(r.Header.Get("X-Id"))
 		data, _ := io.ReadAll(r.Body)
@@ -848,9 +858,33 @@ func TestVerifX05MirrorTV(t *testing.T) {
 			result := proxies[key].Handle(ctx)
 			resp, _ := ctx.GetOutputResponse().(*httpprot.Response)
 			w.Emit(vx.M{"ev": "resp", "id": rq.id, "resp": x05RespClass(resp, rq.id), "result": result})
+			atomic.AddInt64(&nResp, 1)
 		}(rq)
 	}
-	wg.Wait()
+	// all Handle calls return (a watchdog without progress for a long time only turns a wedged run into an inconclusive one)
+	allDone := make(chan struct{})
+	go func() { wg.Wait(); close(allDone) }()
+	lastN, lastT := int64(-1), time.Now()
+	for wedged := false; !wedged; {
+		select {
+		case <-allDone:
+			wedged = true
+		case <-time.After(500 * time.Millisecond):
+			if n := atomic.LoadInt64(&nResp); n != lastN {
+				lastN, lastT = n, time.Now()
+			} else if time.Since(lastT) > 90*time.Second {
+				w.Emit(vx.M{"ev": "stuck", "what": "Handle calls do not return", "returned": n, "of": nReq})
+				for _, rq := range reqs {
+					if rq.cancel != nil {
+						rq.cancel()
+					}
+				}
+				close(release)
+				<-allDone
+				return
+			}
+		}
+	}
 	// barrier: every mirror goroutine that is still alive is parked in a backend that holds its answer
 	quiet := x05Await(func() bool {
 		time.Sleep(2 * time.Millisecond)
